@@ -24,7 +24,7 @@ enum Tok {
 const LITS: [char; 22] = [
     'a', 'b', 'c', 'f', 'o', 'x', 'A', 'B', 'Z', '0', '1', '2', '9', '-', '-', '.', '_', '+', 'é', 'p', 'y', '3',
 ];
-const SETCH: [char; 18] = ['a', 'b', 'c', 'x', 'z', 'A', 'C', 'Z', '0', '3', '5', '9', '[', '.', '+', '_', ',', 'é'];
+const SETCH: [char; 26] = ['a', 'b', 'c', 'x', 'z', 'A', 'C', 'Z', '0', '3', '5', '9', '[', '.', '+', '_', ',', 'é', '^', '^', '!', '\\', '*', '?', ']', ']'];
 
 fn set_member() -> BoxedStrategy<(char, char)> {
     prop_oneof![
@@ -155,6 +155,11 @@ fn mutate(name: &str, kind: u8, sel: u16) -> String {
     cs.into_iter().collect()
 }
 
+/// characters that stand for themselves in a glob (and are not brace or dewey syntax)
+fn literal_char(c: char) -> bool {
+    !c.is_control() && !"*?[]\\{}<>".contains(c)
+}
+
 fn toks_strategy(max: usize) -> BoxedStrategy<Vec<Tok>> {
     prop_oneof![
         6 => prop::collection::vec(tok(), 0..=max),
@@ -165,14 +170,28 @@ fn toks_strategy(max: usize) -> BoxedStrategy<Vec<Tok>> {
         2 => prop::collection::vec(tok(), 0..=2),
         // plain patterns
         3 => prop::collection::vec((0usize..LITS.len()).prop_map(|i| Tok::Lit(LITS[i])), 0..=max),
+        // a word the library's own source spells out, as literals, somewhere among the tokens
+        2 => (prop::collection::vec(tok(), 0..=max.min(5)), crate::engine::dict::string_token(literal_char, "a"), any::<u16>())
+            .prop_map(|(mut v, w, pos)| {
+                let at = idx(pos, v.len() + 1);
+                for (k, c) in w.chars().enumerate() {
+                    v.insert(at + k, Tok::Lit(c));
+                }
+                v
+            }),
     ]
     .boxed()
 }
 
 fn case_strategy(tier: Tier) -> BoxedStrategy<Case> {
     let max = tier.pick(8, 10);
-    (toks_strategy(max), prop::collection::vec(any::<u16>(), 4), prop::option::weighted(0.5, (any::<u8>(), any::<u16>())))
-        .prop_map(|(toks, sels, mu)| {
+    (
+        toks_strategy(max),
+        prop::collection::vec(any::<u16>(), 4),
+        prop::option::weighted(0.5, (any::<u8>(), any::<u16>())),
+        prop::option::weighted(0.1, (crate::engine::dict::string_token(literal_char, "a"), any::<bool>())),
+    )
+        .prop_map(|(toks, sels, mu, word)| {
             let pattern = render(&toks);
             let mut name = instance(&toks, &sels);
             // now and then the candidate is the pattern's own text (a glob with a bracket set
@@ -183,6 +202,34 @@ fn case_strategy(tier: Tier) -> BoxedStrategy<Case> {
             if let Some((k, s)) = mu {
                 name = mutate(&name, k, s);
             }
+            // a word of the library's own source at the end or the start of the name
+            match word {
+                Some((w, true)) => name.push_str(&w),
+                Some((w, false)) => name.insert_str(0, &w),
+                None => {}
+            }
+            Case { pattern, name }
+        })
+        .boxed()
+}
+
+/// syntax of other glob dialects (POSIX classes, '^' negation, backslash escapes, a ']' or '!'
+/// inside a set): ordinary set members and literals in this dialect
+const DIALECT: [&str; 16] = [
+    "foo-[[:digit:]]*", "[[:alpha:]]", "[:alpha:]", "foo-[^0-9]*", "[^a]", "[^]", "[]a]", "[!]a]", "[a!]", "[!!]", "foo\\*", "\\[a]", "[\\]]", "[a-]", "[-a]", "[z-a]",
+];
+
+fn dialect_strategy(_t: Tier) -> BoxedStrategy<Case> {
+    (0usize..DIALECT.len(), prop::collection::vec(prop::sample::select(vec!['a', 'b', 'z', '^', ':', '[', ']', '!', '\\', '-', 'd', '0', '5', 'f', 'o', '*', '.', 'x']), 0..8), 0u8..6)
+        .prop_map(|(i, cs, mode)| {
+            let free: String = cs.into_iter().collect();
+            let pattern = DIALECT[i].to_string();
+            let name = match mode {
+                0 => pattern.clone(),
+                1 => pattern.replace(['[', ']', '*', '^', '!'], ""),
+                2 => format!("foo-{}", free),
+                _ => free,
+            };
             Case { pattern, name }
         })
         .boxed()
@@ -301,6 +348,7 @@ pub fn property() -> Property {
         ],
         streams: vec![
             random_stream("patterns", "grammar-generated glob / plain patterns against instances and mutations", case_strategy, |t| t.pick(200_000, 10_000_000), check),
+            random_stream("dialect", "syntax of other glob dialects (POSIX classes, '^', backslash, ']' / '!' inside a set) against short names over the characters involved", dialect_strategy, |t| t.pick(20_000, 1_000_000), check),
             random_stream("malformed", "malformed globs must be rejected at compile time", malformed_strategy, |t| t.pick(200, 2_000), check),
             random_stream("realistic", "real pkgsrc glob / plain patterns (sample of tests/data/pkgdeps.txt) against real package names built on their literal prefix", real_strategy, |t| t.pick(60_000, 5_000_000), check),
         ],
